@@ -307,17 +307,22 @@ def normalize_url(
         url = "http://" + url
 
     # Parsing
+    # NOTE: the port is only validated when accessed, and a url without host
+    # cannot be normalized either
     try:
         splitted = urlsplit(url)
+        port = splitted.port
     except ValueError:
         return original_url_arg
 
+    if not splitted.hostname:
+        return original_url_arg
+
     scheme, netloc, path, query, fragment = splitted
-    user, password, hostname, port = (
+    user, password, hostname = (
         splitted.username,
         splitted.password,
         splitted.hostname,
-        splitted.port,
     )
 
     # Fixing common mistakes
